@@ -12,11 +12,6 @@ pub proof fn axiom_vcell_into_self()
 '''
 
 APPLY_PRELUDE = r'''
-/// Vm::pop (run.rs): pops one cell and reads it through the heap
-pub assume_specification [Vm::pop] (vm: &mut Vm) -> (r: Result<VCell, Error>)
-    requires old(vm).stack_spec().wf()
-    ensures old(vm).stack_spec().sp_spec() > 0 ==> (r matches Ok(c) && c == heap_deref(old(vm).heap_spec(), arg(*old(vm), 0)) && popped(*old(vm), *final(vm), 1)),
-            r is Err ==> final(vm).stack_spec().wf();
 /// (the same axiom as axiom_cow_cell_ref, for every reference at once: `Cow::from(&cell)` borrows that cell)
 #[verifier::external_body]
 pub proof fn axiom_cow_cell_ref_all() ensures forall|c: &VCell| #[trigger] cow_cell::<&VCell>(c) == *c {}
